@@ -101,7 +101,7 @@ pub fn build_pass_0(
                     t: segment.t,
                     items: vec![],
                 });
-                pass0_internal(segment.clone(), &context, &parsed.macroses)?;
+                pass0_internal(segment.clone(), &context, &parsed.macroses, 0)?;
             }
         }
     }
@@ -109,15 +109,22 @@ pub fn build_pass_0(
     Ok(context.as_pass0_result())
 }
 
+/// Limit of nested macro calls (macro which calls itself must not recurse forever)
+const MAX_NESTED_MACROS: usize = 64;
+
 fn pass0_internal(
     segment: Segment,
     context: &Pass0Context,
     macroses: &HashMap<String, Vec<(CodePoint, String)>>,
+    depth: usize,
 ) -> Result<(), Error> {
     for (line, item) in segment.items.iter() {
         match item {
             Item::Instruction(name, ops) => match name {
                 Operation::Custom(macro_name) => {
+                    if depth >= MAX_NESTED_MACROS {
+                        bail!("macro calls are nested too deeply, {}", line);
+                    }
                     let segments = macro_expand(line, macro_name, ops, context, macroses)?;
                     if !segments.is_empty() {
                         let current_segment = context.last_segment().unwrap().borrow().clone();
@@ -130,7 +137,7 @@ fn pass0_internal(
                                 items: vec![],
                             });
                         }
-                        pass0_internal(segments[0].clone(), context, macroses)?;
+                        pass0_internal(segments[0].clone(), context, macroses, depth + 1)?;
                         for segment in segments.iter().skip(1) {
                             if segment.t == SegmentType::Code {
                                 context.add_segment(Segment {
@@ -138,7 +145,7 @@ fn pass0_internal(
                                     t: segment.t,
                                     items: vec![],
                                 });
-                                pass0_internal(segments[0].clone(), context, macroses)?;
+                                pass0_internal(segments[0].clone(), context, macroses, depth + 1)?;
                             } else {
                                 context.add_segment(segment.clone());
                             }
